@@ -143,7 +143,17 @@ pub fn gen_random(seed: u64, idx: u64) -> Plan {
             }
         } else {
             for (j, w) in reqs.iter().enumerate() {
-                steps.push(Step::Send { data: Blob(w.bytes()), completes: Some(j) });
+                // the last request of a connection may ask for the connection
+                // to be closed, or be an HTTP/1.0 request
+                let last = j + 1 == nreq;
+                let bytes = if last && r.chance(1, 6) {
+                    w.bytes_with(true, false)
+                } else if last && nreq == 1 && r.chance(1, 8) {
+                    w.bytes_with(false, true)
+                } else {
+                    w.bytes()
+                };
+                steps.push(Step::Send { data: Blob(bytes), completes: Some(j) });
                 if !pipelined {
                     steps.push(Step::AwaitResponses { count: j + 1, max_ms: AWAIT_MS });
                     if r.chance(1, 4) {
